@@ -390,7 +390,7 @@ def oracle_C01(inp, out):
     """Every decode returns the most recent not-yet-decoded pushed symbol (same model); when all
     pushes are popped the exported words equal the initial ones; batch forms == per-symbol loop
     (checked through the same pending stack)."""
-    if any(x in (-999999, -999998, -999997) for x in out):
+    if any(x in (-999999, -999998, -999997, -999996) for x in out):
         return "panic/abort/timeout"
     ms, _ = models_of(inp)
     pending = []
@@ -455,7 +455,7 @@ def oracle_C01(inp, out):
 def oracle_C04(inp, out):
     """from_binary(data): both raw-binary exports equal data before and after a decode /
     re-encode round trip; payload size exact; decoded symbols are in the model's support."""
-    if any(x in (-999999, -999998, -999997) for x in out):
+    if any(x in (-999999, -999998, -999997, -999996) for x in out):
         return "panic/abort/timeout"
     ms, i = models_of(inp)
     if inp[i] != 2:
@@ -489,7 +489,7 @@ def oracle_C04(inp, out):
 
 
 def _bad(out):
-    return any(x in (-999999, -999998, -999997) for x in out)
+    return any(x in (-999999, -999998, -999997, -999996) for x in out)
 
 
 def ref_rans(wb, sb, entries):
